@@ -322,7 +322,7 @@ def judge(ctx, case, obs, mouts):
             has_na = any(vecgen.is_na_val(case["kind"], v) for v in case["vals"])
             dn = case["args"].get("drop_na")
             dn = C07.drop_default(case["helper"]) if dn is None else dn
-            unspecified = case["helper"] in ("mode", "count_unique", "median") and has_na and not dn
+            unspecified = case["helper"] in ("mode", "median") and has_na and not dn
             if isinstance(m, dict) and "err" in m:
                 ctx.violation("correspondence", "numba-model-error", f"model rejected the request: {m['err']}", case, obs, m)
             elif "err" not in nb and not unspecified:
